@@ -13,6 +13,7 @@ void fit1d(const double * in, double * out)
   if constexpr (SPEC == 1) c = smooth::fit_spline_1d(dt, dx, smooth::spline_specs::FixedDerCubic<double, 1>{});
   if constexpr (SPEC == 2) c = smooth::fit_spline_1d(dt, dx, smooth::spline_specs::FixedDerCubic<double, 2>{});
   if constexpr (SPEC == 3) c = smooth::fit_spline_1d(dt, dx, smooth::spline_specs::MinDerivative<double, 5, 3, 3>{});
+  if constexpr (SPEC == 4) c = smooth::fit_spline_1d(dt, dx, smooth::spline_specs::MinDerivative<double, 6, 3, 3>{});
   for (int i = 0; i < c.size(); ++i) *out++ = c(i);
 }
 }  // namespace vfit
